@@ -196,3 +196,94 @@ func init() {
 		return SVal{T: Forall([]*Term{r}, [][]*Term{{Select(row, r)}}, Implies(And(Ge(r, sOff(s.T)), Lt(r, Add(sOff(s.T), sLen(s.T)))), body))}
 	}
 }
+
+// sync.ShardedMap[K, V] (gostdlib): a concurrent map stored by value inside its owner. It is modelled as a Go map whose
+// identity is derived from the location of the ShardedMap value (a negative reference, never an allocated object).
+func (x *Exec) shardedMap(st *State, recv Value, named types.Type) (*types.Map, *Term) {
+	n, ok := types.Unalias(named).(*types.Named)
+	if !ok || n.TypeArgs().Len() != 2 {
+		unsup("ShardedMap: receiver type %s", named)
+	}
+	mt := types.NewMap(n.TypeArgs().At(0), n.TypeArgs().At(1))
+	var id *Term
+	switch {
+	case recv.LV != nil:
+		h := int64(0)
+		for _, c := range recv.LV.Key {
+			h = (h*31 + int64(c)) % 1000003
+		}
+		id = Sub(Int(-1-h), Mul(Int(1000003), recv.LV.Ref))
+	case recv.T != nil:
+		id = Sub(Int(-1), Mul(Int(1000003), recv.T))
+	default:
+		unsup("ShardedMap: receiver has no address")
+	}
+	return mt, id
+}
+
+func init() {
+	rulePrefixes["sync.(*ShardedMap["] = func(x *Exec, fr *Frame, st *State, ins ssa.Instruction, sig *types.Signature, args []Value) Value {
+		x.assumed["library: sync.ShardedMap[K,V] Get/Set/Del behave like a map (Get returns the stored value and whether the key is present, Set stores, Del removes); its internal sharding and locking are not modelled"] = true
+		name := ""
+		switch c := ins.(type) {
+		case *ssa.Call:
+			name = c.Call.StaticCallee().Name()
+		case *ssa.Defer:
+			name = c.Call.StaticCallee().Name()
+		}
+		if i := strings.Index(name, "["); i > 0 {
+			name = name[:i]
+		}
+		if args[0].LV == nil {
+			x.nilCheck(fr, st, args[0].T, ins, "method call on nil *ShardedMap")
+		}
+		mt, id := x.shardedMap(st, args[0], sig.Recv().Type().Underlying().(*types.Pointer).Elem())
+		k := args[1].T
+		prev := Value{Tup: []Value{{T: x.mapValue(st, mt, id, k)}, {T: x.mapPresent(st, mt, id, k)}}}
+		if prev.Tup[0].T.Sort == sortFn {
+			prev.Tup[0].Clo = x.closureOf(prev.Tup[0].T)
+		}
+		switch name {
+		case "Get":
+			return prev
+		case "Set":
+			x.mapStore(st, mt, id, k, x.firstClass(args[2], mt.Elem()), True)
+			return prev
+		case "Del":
+			x.mapStore(st, mt, id, k, nil, False)
+			return prev
+		case "Len":
+			n := Fresh("shmlen", "Int")
+			x.assume(st, Ge(n, Int(0)))
+			return Value{T: n}
+		}
+		unsup("ShardedMap method %s has no rule", name)
+		return Value{}
+	}
+	// shm(e.field): the map modelling the ShardedMap stored in that field
+	specBuiltins["shm"] = func(env *SpecEnv, e *Expr) SVal {
+		v := env.eval(e.Args[0])
+		if v.LV == nil || v.GT == nil {
+			env.errf(e, "shm() needs a field holding a ShardedMap")
+		}
+		mt, id := env.x.shardedMap(env.st, Value{LV: v.LV}, v.GT)
+		return SVal{T: id, GT: mt}
+	}
+	// sync.Mutex: critical sections are not modelled (no interleavings); Lock/Unlock are no-ops
+	for _, k := range []string{"sync.(*Mutex).Lock", "sync.(*Mutex).Unlock", "sync.(*RWMutex).Lock", "sync.(*RWMutex).Unlock", "sync.(*RWMutex).RLock", "sync.(*RWMutex).RUnlock"} {
+		rules[k] = func(x *Exec, fr *Frame, st *State, ins ssa.Instruction, sig *types.Signature, args []Value) Value {
+			x.assumed["library: sync.Mutex Lock/Unlock have no effect on the memory of /repo (interleavings are not modelled; mutual exclusion itself is trusted)"] = true
+			return Value{}
+		}
+	}
+}
+
+func init() {
+	// alloc0(): the allocation watermark at the entry of the function under verification (x < alloc0(): x existed then)
+	specBuiltins["alloc0"] = func(env *SpecEnv, e *Expr) SVal {
+		if env.old == nil {
+			env.errf(e, "alloc0() needs an entry state")
+		}
+		return SVal{T: env.old.alloc}
+	}
+}
